@@ -48,8 +48,15 @@ class BadWriter(lua.LuaEchoWriter):
 
 
 class UnparsableWriter(lua.LuaEchoWriter):
+    """Output that lexes but does not parse."""
+
     def to_lines(self):
-        yield b'x = = 1 "\n'
+        yield b'x = = 1\n'
+
+
+class UnlexableWriter(lua.LuaEchoWriter):
+    def to_lines(self):
+        yield b'x = 1 "\n'
 
 
 def scenario(x, p):
@@ -108,6 +115,8 @@ def scenario(x, p):
         writer = BadWriter
     elif fault == 'reparse':
         writer = UnparsableWriter
+    elif fault == 'relex':
+        writer = UnlexableWriter
     elif fault == 'section':
         def bad_lines():
             yield b'00\n'
@@ -140,7 +149,7 @@ def scenario(x, p):
             if not (fmt == '.p8' and fault == 'png'):
                 x.check('an internal failure surfaces as an error', False,
                         info=fault)
-        if fault == 'reparse' and fmt == '.p8':
+        if fault in ('reparse', 'relex') and fmt == '.p8':
             x.check('output that does not re-parse is rejected before '
                     'anything is written', False)
 
@@ -149,11 +158,12 @@ Q = {'_budget': 1200}
 HARNESSES = [
     Harness('scenario', scenario,
             quick=[dict(Q, fmt='.p8', kmax=24, faults=[
-                'none', 'write', 'luawriter', 'reparse', 'section']),
+                'none', 'write', 'luawriter', 'reparse', 'relex',
+                'section']),
                    dict(Q, fmt='.p8.png', kmax=3, faults=[
                        'none', 'write', 'luawriter', 'section', 'png'])],
             thorough=[dict(Q, fmt='.p8', kmax=460, faults=[
-                'none', 'write', 'luawriter', 'reparse', 'section'],
+                'none', 'write', 'luawriter', 'reparse', 'relex', 'section'],
                 _budget=3000),
                       dict(Q, fmt='.p8.png', kmax=3, faults=[
                           'none', 'write', 'luawriter', 'section', 'png'])]),
